@@ -29,7 +29,7 @@ def check(pid, **kw):
     CHECKS[pid] = kw
 
 ENG = ['engine.c']
-check('C01', progs=[('chk_C01', [1, 2])], level='exploration', extra=ENG,
+check('C01', fuzz=True, progs=[('chk_C01', [1, 2])], level='exploration', extra=ENG,
       floors={'result_codes': 5000, 'lines_err_ambiguous': 100, 'lines_err_args_too_long': 50, 'lines_blank': 50, 'holds_released_and_answered': 50, 'list_units': 100})
 check('C02', progs=[('chk_C02', [1])], level='exploration', floors={'lines': 1000, 'abbreviated_lines': 100, 'ambiguous_lines': 50, 'implicit_write_lines': 50})
 def c04_oracle_selftest(variants, seed):
@@ -81,17 +81,17 @@ check('C09', progs=[('chk_C09', [1])], level='exploration',
       floors={'lines': 100000, 'lines_touching_a_disabled_command': 20000, 'command_flag_flips': 10000, 'group_flag_flips': 3000, 'lines_executed': 20000, 'list_lines_checked': 10000})
 check('C10', progs=[('chk_C10', [1, 2])], level='exploration',
       floors={'sequences': 20000, 'command_lists': 500, 'handler_invocations_checked': 50000})
-check('C11', progs=[('chk_C11', [1, 2, 3, 8])], level='exploration', extra=ENG,
+check('C11', fuzz=True, progs=[('chk_C11', [1, 2, 3, 8])], level='exploration', extra=ENG,
       floors={'histories_with_contention': 500, 'contended_steps_event_holds_line': 1000, 'contended_steps_cmd_holds_line': 1000, 'event_units': 1000, 'cmd_data_units': 500, 'list_units': 200, 'write_refusals': 10000})
 check('C12', progs=[('chk_C12', [1, 2])], level='exploration', extra=ENG,
       floors={'schedule_variants_run': 20000, 'refused_read_steps_compared': 50000, 'scenarios_with_events': 2000, 'scenarios_without_events': 2000})
 check('C13', progs=[('chk_C13', [1, 2, 3, 8])], level='exploration',
       floors={'triggers_accepted': 100000, 'triggers_refused': 100000, 'queries_compared': 100000, 'events_failed_at_once': 10000, 'histories_with_wraparound': 1000})
-check('C14', progs=[('chk_C14', [1, 2])], level='exploration', extra=ENG,
+check('C14', fuzz=True, progs=[('chk_C14', [1, 2])], level='exploration', extra=ENG,
       floors={'holds_with_input_queued': 200, 'holds_released_and_answered': 500, 'releases_by_api': 100, 'releases_by_event_handler': 50, 'events_triggered_during_hold': 100, 'spurious_hold_exits': 200})
-check('C15', progs=[('chk_C15', [1, 2, 3, 8])], level='exploration', extra=ENG,
+check('C15', fuzz=True, progs=[('chk_C15', [1, 2, 3, 8])], level='exploration', extra=ENG,
       floors={'quiescence_probes': 5000, 'progress_measurements': 500, 'events_accepted': 5000})
-check('C18', progs=[('chk_C18', [1, 2, 3])], level='exploration', extra=ENG,
+check('C18', fuzz=True, progs=[('chk_C18', [1, 2, 3])], level='exploration', extra=ENG,
       floors={'busy_samples_inside_event_unit': 5000, 'busy_samples_with_open_unit': 20000, 'is_busy_idle_answers': 2000, 'is_hold_samples': 50000, 'holds_entered': 100})
 
 check('C19', progs=[('chk_C19', [1])], level='exploration',
@@ -344,10 +344,13 @@ def do_check(pid, tier):
     agg = run_shards(variants, tier, seed, os.path.join(bdir, 'work'), os.path.join(ROOT, 'evidence', 'replay'), scale=cfg.get('scale', {}).get(tier, 1))
     rule = run_info(variants[0], tier).get('rule', 'see DESIGN.md section 5, ' + pid)
     shutil.rmtree(os.path.join(bdir, 'work'), ignore_errors=True)
+    extra_viol = []
+    if tier == 'thorough' and cfg.get('fuzz'):
+        extra_cov = dict(extra_cov or {}); extra_cov.update(fuzz_campaign(pid, bdir, seed, extra_viol, os.path.join(ROOT, 'evidence', 'replay'), runs=1600000))
     if tier == 'thorough':
         extra_cov = dict(extra_cov or {}); extra_cov.update(gcov_coverage(bdir, [(p, caps[0], cfg.get('extra', [])) for p, caps in cfg['progs']], seed, 'quick'))
     evals = sum(agg.counters.get(k, 0) for k in cfg['evaluations_from']) if 'evaluations_from' in cfg else None
-    report_and_exit(pid, tier, seed, cfg['level'], agg, t0, cfg.get('floors', {}), rule, ASSUME + cfg.get('assume', []), extra_cov=extra_cov, evaluations=evals)
+    report_and_exit(pid, tier, seed, cfg['level'], agg, t0, cfg.get('floors', {}), rule, ASSUME + cfg.get('assume', []), extra_cov=extra_cov, evaluations=evals, extra_viol=extra_viol)
 
 
 # ----------------------------------------------------------------------------- C17: threads + ThreadSanitizer
@@ -496,38 +499,53 @@ def c03_memcheck(bdir, seed, viols, rdir):
         viols.append({'prop': 'C03', 'key': 'memcheck:' + ('cat.c' if 'cat.c' in r.stderr else 'harness'), 'case': 'memcheck', 'msg': r.stderr.strip().splitlines()[0][:200], 'replay': path})
     return {'memcheck': {'cases': 4000, 'rc': r.returncode}}
 
-def c03_fuzz(bdir, seed, viols, rdir):
+def fuzz_campaign(pid, bdir, seed, viols, rdir, runs=2000000):
+    """libFuzzer drives the engine's generator decisions; the monitors of property `pid` are fatal (thorough tier only)."""
     fd = os.path.join(bdir, 'fuzz'); os.makedirs(fd, exist_ok=True)
     out = os.path.join(fd, 'fuzz_target')
     srcs = [os.path.join(HARN, x) for x in ('fuzz_target.c', 'common.c', 'refmodel.c', 'engine.c')] + [os.path.join(REPO, 'src', 'cat.c')]
-    if not os.path.exists(srcs[0]): return {'libfuzzer': 'no fuzz target'}
     r = subprocess.run(['clang', '-O1', '-g', '-fsanitize=fuzzer,address,undefined', '-fno-sanitize-recover=all', '-fno-sanitize=object-size', '-DCAT_VERIF', '-DCAT_UNSOLICITED_CMD_BUFFER_SIZE=2', '-DVERIF_FUZZ=1',
                         '-I' + os.path.join(REPO, 'src'), '-I' + HARN] + srcs + ['-o', out], capture_output=True, text=True)
     if r.returncode: log('fuzz target does not compile: ' + r.stderr[-1500:]); sys.exit(2)
     corpus = os.path.join(fd, 'corpus'); os.makedirs(corpus, exist_ok=True)
-    seedc = os.path.join(ROOT, 'corpus')
-    if os.path.isdir(seedc):
-        for f in os.listdir(seedc)[:2000]: shutil.copy(os.path.join(seedc, f), corpus)
-    runs = 2000000
-    env = dict(os.environ, ASAN_OPTIONS='detect_leaks=0:quarantine_size_mb=8')
-    pr = subprocess.run([out, corpus, '-runs=%d' % runs, '-jobs=%d' % NCPU, '-workers=%d' % NCPU, '-max_len=600', '-seed=%d' % seed, '-artifact_prefix=' + fd + '/', '-print_final_stats=1'], capture_output=True, text=True, cwd=fd, env=env, timeout=7200)
-    crashes = [f for f in os.listdir(fd) if f.startswith('crash-') or f.startswith('timeout-') or f.startswith('oom-')]
+    env = dict(os.environ, ASAN_OPTIONS='detect_leaks=0:quarantine_size_mb=8', VERIF_FUZZ_PROP=pid)
+    try:
+        subprocess.run([out, corpus, '-runs=%d' % (runs // NCPU), '-jobs=%d' % NCPU, '-workers=%d' % NCPU, '-max_len=600', '-seed=%d' % seed, '-artifact_prefix=' + fd + '/', '-print_final_stats=1'],
+                       capture_output=True, text=True, cwd=fd, env=env, timeout=5400)
+    except subprocess.TimeoutExpired:
+        return {'libfuzzer': 'timeout (inconclusive)'}
+    crashes = [f for f in os.listdir(fd) if f.startswith(('crash-', 'timeout-', 'oom-'))]
+    import re
     execs = 0
     for f in os.listdir(fd):
         if f.startswith('fuzz-') and f.endswith('.log'):
-            import re
             m = re.findall(r'stat::number_of_executed_units: (\d+)', open(os.path.join(fd, f), errors='replace').read())
             if m: execs += int(m[-1])
     for c in crashes[:5]:
         rr = subprocess.run([out, os.path.join(fd, c)], capture_output=True, text=True, env=env)
-        path = os.path.join(rdir, 'C03-fuzz-' + c); shutil.copy(os.path.join(fd, c), path)
-        viols.append({'prop': 'C03', 'key': 'fuzz:' + san_key(rr.stderr), 'case': c, 'msg': (rr.stderr.strip().splitlines() or ['crash'])[0][:200], 'replay': path})
-    return {'libfuzzer': {'executions': execs, 'corpus_files': len(os.listdir(corpus)), 'artifacts': len(crashes)}}
+        path = os.path.join(rdir, '%s-fuzz-%s' % (pid, c)); shutil.copy(os.path.join(fd, c), path)
+        m = re.search(r'VIOLATION (C\d\d)/([\w-]+): ([^\n]*)', rr.stderr)
+        key = m.group(2) if m else san_key(rr.stderr)
+        viols.append({'prop': pid, 'key': 'fuzz:' + key, 'case': c, 'msg': (m.group(3) if m else (rr.stderr.strip().splitlines() or ['crash'])[-1])[:300], 'replay': path})
+    return {'libfuzzer': {'executions': execs, 'corpus_files': len(os.listdir(corpus)), 'artifacts': len(crashes), 'fatal_monitors': pid}}
+
+def c03_fuzz(bdir, seed, viols, rdir):
+    return fuzz_campaign('C03', bdir, seed, viols, rdir)
 
 check('C03', custom=c03_custom, progs=[(p, c) for p, c, _, _ in C03_REPLAY], level='exploration')
 
 # ----------------------------------------------------------------------------- replay
 def do_replay(path):
+    base = os.path.basename(path)
+    if '-fuzz-' in base:      # libFuzzer artifact: rebuild the fuzz front-end and run it on the artifact with that property's monitors fatal
+        pid = base.split('-fuzz-')[0]
+        bdir = os.path.join(ROOT, 'build', 'replay'); shutil.rmtree(bdir, ignore_errors=True); os.makedirs(bdir)
+        out = os.path.join(bdir, 'fuzz_target')
+        srcs = [os.path.join(HARN, x) for x in ('fuzz_target.c', 'common.c', 'refmodel.c', 'engine.c')] + [os.path.join(REPO, 'src', 'cat.c')]
+        subprocess.check_call(['clang', '-O1', '-g', '-fsanitize=fuzzer,address,undefined', '-fno-sanitize-recover=all', '-fno-sanitize=object-size', '-DCAT_VERIF', '-DCAT_UNSOLICITED_CMD_BUFFER_SIZE=2',
+                               '-I' + os.path.join(REPO, 'src'), '-I' + HARN] + srcs + ['-o', out])
+        r = subprocess.run([out, path], env=dict(os.environ, ASAN_OPTIONS='detect_leaks=0', VERIF_FUZZ_PROP=pid))
+        log('exit', r.returncode, '(non-zero = violation reproduced)'); sys.exit(1 if r.returncode else 0)
     hdr = json.loads(open(path).readline())
     pid = hdr['prop']
     if hdr.get('prog') == 'mt_stress':
